@@ -1,6 +1,7 @@
 package checks
 
 import (
+	"encoding/hex"
 	"fmt"
 	"sort"
 	"time"
@@ -47,10 +48,16 @@ func requiredFee(t TxSpec) int64 {
 }
 
 func roleKey(to string) string {
-	if len(to) > 7 && to[:7] == "module:" {
-		return to
+	if len(to) > 4 && to[:4] == "hex:" {
+		return "addr:" + to[4:]
 	}
 	return to
+}
+
+// recipients whose address is not 20 bytes long (the message check only refuses an empty address): an existing
+// account's address with one more byte, the rich sender's address with one more byte, an existing address cut to 19
+func c18OddRecipients() []string {
+	return []string{"hex:" + hex.EncodeToString(caddr("A2")) + "aa", "hex:" + hex.EncodeToString(caddr("A1")) + "01", "hex:" + hex.EncodeToString(caddr("A2")[:19])}
 }
 
 func c18Cases() []chainCase {
@@ -65,9 +72,13 @@ func c18Cases() []chainCase {
 	recips := []string{"A2", "NEW", "SELF", "module:staked_tokens_pool", "X"}
 	// amounts relative to the sender's balance B and the fee F
 	amts := []string{"1", "B-F-1", "B-F", "B-F+1", "B", "B+1", "F"}
-	for _, p := range pres {
+	for pi, p := range pres {
 		for _, s := range senders {
-			for _, rc := range recips {
+			rcs := recips
+			if pi == 0 {
+				rcs = append(append([]string{}, recips...), c18OddRecipients()...)
+			}
+			for _, rc := range rcs {
 				for _, am := range amts {
 					p, s, rc, am := p, s, rc, am
 					to := rc
@@ -185,7 +196,7 @@ func c18All() []chainCase {
 func init() {
 	register(&Check{ID: "C18", QuickBud: 110 * time.Second, ThorBud: 20 * time.Minute,
 		Run: func(c *ev.Ctx) {
-			c.Rule = "every send over 3 pre-states x 3 senders (rich, exactly fee+1, freshly created/non-existent) x 5 recipients (existing, new, self, module account, never-seen) x 7 amounts (1, balance-fee-1, balance-fee, balance-fee+1, balance, balance+1, fee) executed in a block of the real application and compared with a reference replica whose last block is empty: the balance changes of ALL accounts must be exactly {sender -amount-fee, recipient +amount, fee collector +fee} on success, {sender -fee, fee collector +fee} when the amount cannot be covered, and nothing (identical app hash) when the transaction is rejected before or during authentication; supply invariant and canonical, non-negative balances on every final state"
+			c.Rule = "every send over 3 pre-states x 3 senders (rich, exactly fee+1, freshly created/non-existent) x 5 recipients (existing, new, self, module account, never-seen; from the fresh state also addresses of 21 and 19 bytes that extend or truncate an existing account's address) x 7 amounts (1, balance-fee-1, balance-fee, balance-fee+1, balance, balance+1, fee) executed in a block of the real application and compared with a reference replica whose last block is empty: the balance changes of ALL accounts must be exactly {sender -amount-fee, recipient +amount, fee collector +fee} on success, {sender -fee, fee collector +fee} when the amount cannot be covered, and nothing (identical app hash) when the transaction is rejected before or during authentication; supply invariant and canonical, non-negative balances on every final state"
 			runChainCases(c, "transfer", c18All())
 			getPool().Close()
 		},
